@@ -10,7 +10,7 @@ import z3
 
 from pyvc import specz3
 from pyvc.sym import (I, B, A, A2, iv, add, sub, lit, fresh, fresh_seq, Seq, Tup, Mat, Row, Obj, FloatV, NONE, NoneV, const_str,
-                      const_list, seq_eq, const_mat, MaskV, ZipSeq, MaybeFloat, PairSeq)
+                      const_list, seq_eq, const_mat, MaskV, ZipSeq, MaybeFloat, PairSeq, LazySeq, MatLazy, DictV)
 
 Z3_TIMEOUT_MS = int(os.environ.get("PYVC_Z3_TIMEOUT_MS", "20000"))
 CVC5_TIMEOUT_S = int(os.environ.get("PYVC_CVC5_TIMEOUT_S", "40"))
@@ -183,7 +183,7 @@ class Exec:
                 s.set("smt.random_seed", attempt)
                 if attempt >= 3:
                     s.set("smt.relevancy", 0 if attempt == 3 else 2)
-                    s.set("timeout", 3 * self.z3_timeout_ms)          # last resorts: long budget (only reached when everything else failed)
+                    s.set("timeout", 2 * self.z3_timeout_ms)          # last resorts: long budget (only reached when everything else failed)
             s.add(*(asserts if attempt not in (2, 4) else list(reversed(asserts))))
             r = s.check()
             if r != z3.unknown:
@@ -363,7 +363,7 @@ class Exec:
             raise Unsupported("sequence ordering")
         if isinstance(l, FloatV) or isinstance(r, FloatV):
             return self.float_compare(op, l, r)
-        if (isinstance(l, ZipSeq) or (isinstance(l, Seq) and l.kind == "nd")) and not isinstance(r, (Seq, ZipSeq)):
+        if (isinstance(l, (ZipSeq, LazySeq)) or (isinstance(l, Seq) and l.kind == "nd")) and not isinstance(r, (Seq, ZipSeq, LazySeq)):
             c = toint(r)
             f = {ast.Eq: lambda v: v == c, ast.NotEq: lambda v: v != c, ast.Lt: lambda v: v < c, ast.LtE: lambda v: v <= c,
                  ast.Gt: lambda v: v > c, ast.GtE: lambda v: v >= c}[type(op)]
@@ -402,6 +402,8 @@ class Exec:
         return {ast.Eq: a == b, ast.NotEq: a != b, ast.Lt: a < b, ast.LtE: a <= b, ast.Gt: a > b, ast.GtE: a >= b}[type(op)]
 
     def contains(self, container, item, st, line):
+        if isinstance(container, DictV):
+            return container.has[toint(item)]
         if isinstance(container, Seq) and container.kind == "str":
             if not (isinstance(item, Seq) and item.kind == "str"):
                 raise Unsupported("non-string in string")
@@ -449,6 +451,10 @@ class Exec:
         return self.binop(e.op, l, r, st, e.lineno)
 
     def binop(self, op, l, r, st, line):
+        if isinstance(l, (Mat, MatLazy)) and not isinstance(r, (Mat, MatLazy, Seq)) and isinstance(op, (ast.Add, ast.Sub)):
+            c_ = toint(r)
+            f_ = (lambda x: x + c_) if isinstance(op, ast.Add) else (lambda x: x - c_)
+            return MatLazy(l.rows, l.cols, lambda r_, c2, l=l, f_=f_: f_(l.at(r_, c2)), l.dtype)
         if isinstance(l, MaybeFloat) or isinstance(r, MaybeFloat):
             whens = [x.when for x in (l, r) if isinstance(x, MaybeFloat)]
             return MaybeFloat(self.binop(op, toint(l), toint(r), st, line), z3.Or(*whens))
@@ -608,6 +614,10 @@ class Exec:
             r_ = toint(self.ev(sl, st))
             self.index_ok(st, r_, base.rows, line)
             return base.row(r_)
+        if isinstance(base, DictV):
+            k_ = toint(self.ev(sl, st))
+            self.may_raise(st, "KeyError", z3.Not(base.has[k_]), f"key:{self.ordinal('key')}", line)
+            return base.value(k_)
         if isinstance(base, PairSeq):
             if isinstance(sl, ast.Slice):
                 if sl.lower is None and sl.upper is None and sl.step is not None and lit(toint(self.ev(sl.step, st))) == -1:
@@ -740,6 +750,11 @@ class Exec:
         for j in range(len(txt) - 2, -1, -1):
             v = z3.If(x == j, iv(ord(txt[j])), v)
         return v
+
+    def ev_Dict(self, e, st):
+        if e.keys:
+            raise Unsupported("non-empty dict literal")
+        return DictV(z3.K(I, z3.BoolVal(False)), z3.K(I, z3.K(I, iv(0))), z3.K(I, iv(0)), const_list([]))
 
     def ev_Lambda(self, e, st):
         return ("lambda", e, st)
@@ -877,6 +892,16 @@ class Exec:
         if isinstance(tgt.value, ast.Name):
             name = tgt.value.id
             base = st.env.get(name)
+            if isinstance(base, DictV):
+                self.frame_store(st, name, line)
+                k_ = toint(self.ev(tgt.slice, st))
+                if not isinstance(v, Seq) or v.delta != 0 or lit(v.start) != 0:
+                    raise Unsupported("dict value that is not a plain list")
+                from pyvc.calls import append as seq_append
+                new_order = Seq(base.order.kind, base.order.elem, z3.If(base.has[k_], base.order.arr, seq_append(base.order, k_).arr),
+                                z3.If(base.has[k_], base.order.n, base.order.n + 1), base.order.start, base.order.delta)
+                st.env[name] = DictV(z3.Store(base.has, k_, z3.BoolVal(True)), z3.Store(base.varr, k_, v.arr), z3.Store(base.vlen, k_, v.n), new_order)
+                return
             if isinstance(base, Seq) and base.kind in ("list", "nd"):
                 if name in st.aliased:
                     raise Unsupported(f"store through possibly aliased list {name}")
@@ -1038,6 +1063,9 @@ class Exec:
         return names
 
     def havoc_value(self, name, old):
+        if isinstance(old, DictV):
+            return DictV(fresh(name + "_has", z3.ArraySort(I, B)), fresh(name + "_varr", A2), fresh(name + "_vlen", A),
+                         Seq("list", "int", fresh(name + "_order", A), fresh(name + "_order_n")))
         if isinstance(old, PairSeq):
             a = self.havoc_value(name + "_a", old.a)
             b = self.havoc_value(name + "_b", old.b)
@@ -1112,6 +1140,7 @@ class Exec:
 
     def iter_space(self, it, st, line):
         """(count, bind(state, i)) for a for-loop iterable evaluated at loop entry."""
+        self._last_iter_maxlen = None
         def rng(args, reverse=False):
             vals = [toint(self.ev(a_, st)) for a_ in args]
             if len(vals) == 1:
@@ -1139,6 +1168,10 @@ class Exec:
             cnt_, f = rng(it.args)
             return cnt_, lambda t, i, tgt: self.assign(tgt, f(i), t, None)
         if isinstance(it, ast.Call) and isinstance(it.func, ast.Name) and it.func.id == "enumerate":
+            if isinstance(it.args[0], ast.Call) and isinstance(it.args[0].func, ast.Attribute) and it.args[0].func.attr == "items":
+                d_ = self.ev(it.args[0].func.value, st)
+                if isinstance(d_, DictV):          # enumerate(d.items()): pairs (key, value) in insertion order
+                    return d_.order.n, lambda t, i, tgt, d_=d_: self.assign(tgt, Tup([i, Tup([d_.order.at(i), d_.value(d_.order.at(i))])]), t, None)
             src = self.ev(it.args[0], st)
             if isinstance(src, Tup):
                 return ("unroll", [Tup([iv(k_), x_]) for k_, x_ in enumerate(src.items)])
@@ -1148,6 +1181,7 @@ class Exec:
                 raise Unsupported("enumerate over a non-sequence")
             return src.n, lambda t, i, tgt: self.assign(tgt, Tup([i, self.element(src, i)]), t, None)
         src = self.ev(it, st)
+        self._last_iter_maxlen = getattr(src, "maxlen", None) if isinstance(src, Seq) and lit(src.n) is None else None
         if isinstance(src, Seq):
             return src.n, lambda t, i, tgt: self.assign(tgt, self.element(src, i), t, None)
         if isinstance(src, Tup):
@@ -1170,6 +1204,9 @@ class Exec:
         spec = self.loop_spec(n, s)
         if isinstance(space[0], str) or (spec is None and lit(space[0]) is not None and lit(space[0]) <= 8):
             return self.unroll(s, st, space, n) + raised
+        bound = getattr(self, "_last_iter_maxlen", None)
+        if spec is None and bound is not None and bound <= 4:
+            return self.unroll_guarded(s, st, space, n, bound) + raised
         if spec is None:
             raise Unsupported(f"loop {n} (line {s.lineno}) has no invariant in the sidecar")
         count, bind = space
@@ -1200,6 +1237,34 @@ class Exec:
         for x in live:
             out += [Outcome("normal", g) for g in self.ghost(f"after_loop{n}", x)]
         return out + done
+
+    def unroll_guarded(self, s, st, space, n, bound):
+        """a loop over a sequence of symbolic length <= bound (4): iteration j runs on the paths where j < length."""
+        count, bind = space
+        live, done = [st], []
+        for j in range(bound):
+            nxt = []
+            for x in live:
+                t_in = x.clone()
+                t_in.assume(j < count)
+                t_out = x
+                t_out.assume(z3.Not(j < count))
+                if self.feasible(t_out):
+                    done.append(Outcome("normal", t_out))
+                if self.feasible(t_in):
+                    bind(t_in, iv(j), s.target)
+                    for o in self.exec_block(s.body, t_in):
+                        if o.kind in ("normal", "continue"):
+                            nxt.append(o.st)
+                        elif o.kind == "break":
+                            done.append(Outcome("normal", o.st))
+                        else:
+                            done.append(o)
+            live = nxt
+        for x in live:
+            x.assume(count <= bound)
+            done.append(Outcome("normal", x))
+        return done
 
     def st_While(self, s, st):
         n = self.loop_ids[id(s)]
@@ -1341,15 +1406,28 @@ class Exec:
         args = self.fn.args
         names = [a.arg for a in args.args]
         defaults = dict(zip(names[len(names) - len(args.defaults):], args.defaults))
-        for nme, shape in self.c.get("ghost_params", {}).items():       # universally quantified spec-only inputs
-            st.env[nme] = shapes.fresh_of(self, st, shape, nme)
-            self.ghost_names.add(nme)
         simple = ("int", "nat", "bool", "true", "false", "const0", "none")
         ordered = [n_ for n_ in names if self.c.get("params", {}).get(n_) in simple] + \
                   [n_ for n_ in names if self.c.get("params", {}).get(n_) not in simple]       # dimensions first: shapes may mention them
+        gp = self.c.get("ghost_params", {})
+        for nme, shape in gp.items():       # universally quantified spec-only inputs (scalars now, structured ones after the real scalars)
+            if shape in simple:
+                st.env[nme] = shapes.fresh_of(self, st, shape, nme)
+                self.ghost_names.add(nme)
         for nme in ordered:
-            if nme in st.env:          # declared as a ghost (spec-only) input of the harness
+            if self.c.get("params", {}).get(nme) in simple and nme not in st.env and nme != "self":
+                if nme in self.split:
+                    st.env[nme] = shapes.const_value(self.split[nme])
+                else:
+                    st.env[nme] = shapes.fresh_of(self, st, self.c["params"][nme], nme)
                 self.param_objects[nme] = st.env[nme]
+        for nme, shape in gp.items():
+            if shape not in simple:
+                st.env[nme] = shapes.fresh_of(self, st, shape, nme)
+                self.ghost_names.add(nme)
+        for nme in ordered:
+            if nme in st.env:          # already created (a scalar) or declared as a ghost (spec-only) input of the harness
+                self.param_objects.setdefault(nme, st.env[nme])
                 continue
             if nme == "self":
                 st.env["self"] = shapes.make_self(self, st)
